@@ -132,6 +132,9 @@ func (e *Evaluator) resolve(obj *Obj, rootType string, f *ast.Field, vars map[st
 	if flt, has := args["filter"]; has && flt != nil && v.Kind == VStr {
 		v = Str(fmt.Sprintf("%s/filter=%v", v.S, canonArg(flt)))
 	}
+	if dat, has := args["data"]; has && dat != nil && v.Kind == VStr {
+		v = Str(fmt.Sprintf("%s/data=%v", v.S, canonArg(dat)))
+	}
 	return v
 }
 
